@@ -88,6 +88,10 @@ func Alphabet() []Sym {
 		{Name: "LogonNonNumericHb", LogonClass: LogonNonNumericHb, Type: "A", Build: func(p *Peer, lim [2]int) []byte {
 			return p.Msg("A", fixref.F(TEncrypt, "0"), fixref.F(THeartBt, "3x"))
 		}},
+		// a repeating group that announces fewer entries than it carries (MsgTypes group of the Logon): not well-formed
+		{Name: "LogonGroupCountBelowEntries", LogonClass: LogonNonNumericHb, Type: "A", Build: func(p *Peer, lim [2]int) []byte {
+			return p.Msg("A", fixref.F(TEncrypt, "0"), fixref.F(THeartBt, strconv.Itoa(mid(lim))), fixref.F("384", "1"), fixref.F("372", "D"), fixref.F("385", "S"), fixref.F("372", "8"), fixref.F("385", "R"), fixref.F(TUser, "user"), fixref.F(TPass, "pw"))
+		}},
 		// numeric fields whose value exceeds 64 bits and would wrap to an acceptable number
 		{Name: "LogonHbWrapsAround2^64", LogonClass: LogonNonNumericHb, Type: "A", Build: func(p *Peer, lim [2]int) []byte {
 			return p.Msg("A", fixref.F(TEncrypt, "0"), fixref.F(THeartBt, Plus2to64(mid(lim))), fixref.F(TUser, "user"), fixref.F(TPass, "pw"))
